@@ -81,6 +81,17 @@ func (x *Exec) bumpPrefixFrame(st *State, prefix string, frameAlloc Term) {
 	x.genFrames[x.epochCtr] = frameAlloc
 }
 
+// bumpPrefixGuarded: like bumpPrefixFrame, but the link to the previous generation is a
+// candidate (assumed only under the Houdini guard, which the caller checks at the loop's
+// back edges for every array under the prefix that gets accessed).
+func (x *Exec) bumpPrefixGuarded(st *State, prefix string, frameAlloc, guard Term) {
+	x.bumpPrefixFrame(st, prefix, frameAlloc)
+	if x.genGuards == nil {
+		x.genGuards = map[int]Term{}
+	}
+	x.genGuards[x.epochCtr] = guard
+}
+
 // defaultTerm names the not-yet-accessed array for key under source d, considering only
 // generations below the given one, and links framed generations to their predecessor.
 func (x *Exec) defaultTerm(d defSrc, key string, sort Sort, below int) Term {
@@ -96,7 +107,11 @@ func (x *Exec) defaultTerm(d defSrc, key string, sort Sort, below int) Term {
 		if !x.c.seen["genframe:"+t.S] {
 			x.c.seen["genframe:"+t.S] = true
 			f := fmt.Sprintf("(forall ((r Int)) (! (=> (<= r %s) (= (select %s r) (select %s r))) :pattern ((select %s r))))", fa.S, t.S, prev.S, t.S)
-			x.c.AddFactAbout(t.S, tTrue, Term{S: f, Sort: SBool, N: 12, UB: -1}, "frame: callee allocates only fresh objects in "+key)
+			ft := Term{S: f, Sort: SBool, N: 12, UB: -1}
+			if g, ok := x.genGuards[g]; ok {
+				ft = implies(g, ft)
+			}
+			x.c.AddFactAbout(t.S, tTrue, ft, "frame: only fresh objects written in "+key)
 		}
 	}
 	return t
@@ -176,6 +191,7 @@ type Exec struct {
 	rootLocsDone bool
 	exitPos  token.Pos
 	genFrames map[int]Term // default-array generations created by fresh-only callees: old allocation counter
+	genGuards map[int]Term // generations whose frame is a Houdini candidate: its guard literal
 }
 
 type candidate struct {
@@ -197,6 +213,8 @@ type loopInfo struct {
 	candEval []func(st *State) Term
 	rangeVar map[string]*ssa.Alloc // source name -> rangeindex alloc (value is rangeindex+1)
 	modKeys  *modSet
+	prefixGuards map[string]Term // per havocked key prefix: guard of the frame of late-accessed arrays
+	headKeys map[string]bool     // heap keys known when the loop head was reached
 }
 
 type frame struct {
